@@ -434,15 +434,18 @@ def run(run):
     run.apalache('MC_EvalPathApa', 'ConstInit8Bad', 'IndInit', 'IndInv', 1, expect_violation=True)
     run.laws['variant ConstInit8Bad rejected (Apalache)'] = 'IndInv not inductive without the path check'
     finals = {}
-    for b in pool.dump_blocks(r.dump, skip_substr='outcome = "running"'):
+    import sys
+    if quick:
+        src, total = pool.dump_blocks(r.dump, skip_substr='outcome = "running"'), None
+    else:       # millions of final states: a uniform sample of 60 000 of them, streamed from the dump
+        src, total = pool.sample_blocks(r.dump, 60000, random.Random(run.seed), skip_substr='outcome = "running"')
+        run.notes['final_states_in_dump'] = total
+    for b in src:
         st = pool.parse_block(b)
         finals[(str(st['refs']), str(st['fail']), st['entry'])] = {k: st[k] for k in ('refs', 'fail', 'entry', 'outcome', 'val')}
+    del src
     cases = list(finals.values())
-    import sys
-    print(f'[c06] {len(cases)} graphs', file=sys.stderr, flush=True)
-    if not quick:
-        random.Random(run.seed).shuffle(cases)
-        cases = cases[:60000]
+    print(f'[c06] {len(cases)} graphs' + (f' (sampled from {total})' if total else ''), file=sys.stderr, flush=True)
     outcomes = {}
     for res in pool.pmap(graph_worker, cases):
         run.evaluations += res['n']
@@ -468,9 +471,18 @@ def run(run):
     run.evaluations += nshared
     run.notes['shared_evaluator_evaluations'] = nshared
     # dormant cycles: references guarded by a switch cell (through the lazily evaluating IF) - evaluate, set the switch, evaluate
-    table = {(str(c['refs']), c['entry']): (c['outcome'], c['val']) for c in cases if not any(c['fail'])}
+    # (these families pair a graph with a sub-graph of it: they need the EXHAUSTIVE 3-cell instance, also in the thorough tier)
+    if quick:
+        cases3 = cases
+    else:
+        r3 = run.tlc('MC_C06', 'C06_check.cfg', dump=True, timeout=3000, name='C06_check3')
+        cases3 = []
+        for b in pool.dump_blocks(r3.dump, skip_substr='outcome = "running"'):
+            st = pool.parse_block(b)
+            cases3.append({k: st[k] for k in ('refs', 'fail', 'entry', 'outcome', 'val')})
+    table = {(str(c['refs']), c['entry']): (c['outcome'], c['val']) for c in cases3 if not any(c['fail'])}
     sw_items = []
-    for cse in cases:
+    for cse in cases3:
         refs = cse['refs']
         if any(cse['fail']) or cse['entry'] != 1 or not any(j >= c for c, rs in enumerate(refs, 1) for j in rs):
             continue
@@ -494,7 +506,7 @@ def run(run):
         raise xl.MachineryError(f'vacuous switch family: {nsw} evaluations')
     # the same formula texts on two sheets that are different graphs (one cyclic, one not), one evaluator, both orders
     tw_items = []
-    for cse in cases:
+    for cse in cases3:
         refs = cse['refs']
         if any(cse['fail']) or cse['entry'] != 1:
             continue
